@@ -53,7 +53,7 @@ def make_custom(name):
     if name == "hamming":
         return "hamming"
     lev = oracles.levenshtein
-    scale = {"lev2": 2, "lev_plus_len": 1, "ham_or_big": 1}[name]
+    scale = {"lev2": 2, "lev_plus_len": 1, "ham_or_big": 1, "lev_half": 0.5, "lev_frac": 0.25}[name]
 
     if name == "lev2":
         def dist(a, b):
@@ -61,6 +61,12 @@ def make_custom(name):
     elif name == "lev_plus_len":
         def dist(a, b):
             return scale * lev(str(a), str(b)) + abs(len(a) - len(b))
+    elif name == "lev_half":  # non-integer values (exact in binary): 0.5, 1.0, 1.5 ...
+        def dist(a, b):
+            return scale * lev(str(a), str(b))
+    elif name == "lev_frac":
+        def dist(a, b):
+            return lev(str(a), str(b)) + scale * abs(len(a) - len(b))
     else:
         def dist(a, b):
             h = oracles.hamming_or_none(str(a), str(b))
@@ -160,7 +166,7 @@ def generate(seed, tier, index=0):
     for _ in range(swarm["steps"]):
         mode = rng.choice(swarm["modes"])
         if mode == "custom":
-            mode = rng.choice(["lev2", "lev_plus_len", "ham_or_big"])
+            mode = rng.choice(["lev2", "lev_plus_len", "ham_or_big", "lev_half", "lev_frac"])
         n = rng.choice([1, 2, 3, rng.randint(1, swarm["max_n"]), rng.randint(2, swarm["max_n"]), swarm["max_n"]])
         n = max(1, min(n, swarm["max_n"]))
         seqs = gen_seqs(rng, swarm, mode, n)
@@ -169,7 +175,7 @@ def generate(seed, tier, index=0):
             mr = rng.choice([1, 1, 2, 3, 5])
         mcd = None
         if mode not in ("default", "hamming"):
-            mcd = rng.choice([None, None, 0, 1, 2.5, 4])
+            mcd = rng.choice([None, None, 0, 1, 2.5, 4, 0.5, 1.25])
         ops.append({
             "op": "kdtree",
             "seqs": seqs,
